@@ -43,6 +43,10 @@ extern long mpt_buffer_set(MPT_STRUCT(buffer) *buf, const MPT_STRUCT(type_traits
 		if (src_traits) {
 			return MPT_ERROR(BadArgument);
 		}
+		/* clear gap between existing and new data */
+		if (pos > buf->_used) {
+			memset(ptr + buf->_used, 0, pos - buf->_used);
+		}
 		if (src_data) {
 			memcpy(ptr + pos, src_data, len);
 		} else {
